@@ -126,3 +126,55 @@ contract(
                          allclose=lambda a, b: __import__('numpy').allclose(a, b, rtol=1e-9, atol=1e-12),
                          array_equal=lambda a, b: __import__('numpy').array_equal(a, b))),
 )
+
+
+# ---------------------------------------------------------------------------------------------
+# C09.e  truncate_precomputed_stats_file: level bookkeeping (slice)
+# ---------------------------------------------------------------------------------------------
+from pyvc.types import record   # noqa: E402
+
+# the taxonomy tree as far as the bookkeeping looks at it
+record('PcTree', hierarchy='List[Name]', leaf_level='Name')
+
+OLD = 'old_tree.hierarchy'
+
+contract(
+    M + 'truncate_precomputed_stats_file#levels',
+    properties=['C09'],
+    mode='slice',
+    tracked=['new_hierarchy', 'old_tree', 'bad_levels', 'level', 'level_to_idx', 'new_idx',
+             'sorted_new_idx', 'to_drop'],
+    unexpected_exceptions='allowed',
+    params=dict(new_hierarchy='List[Name]'),
+    locals=dict(old_tree='PcTree', bad_levels='List[Name]', to_drop='List[Name]',
+                level_to_idx='Dict[Name,Int]', new_idx='List[Int]', sorted_new_idx='List[Int]'),
+    requires=[],
+    ghost=dict(feasible_ms=60),
+    inline_asserts={
+        # when the dropping of levels starts, the request is an order-preserving proper
+        # sub-hierarchy and `to_drop` lists exactly the levels that are absent from it
+        'new_tree = None': [
+            f"all(any({OLD}[i] == new_hierarchy[j] for i in range(len({OLD}))) for j in range(len(new_hierarchy)))",
+            f"new_hierarchy != {OLD}",
+            "len(new_idx) == len(new_hierarchy)",
+            f"all(0 <= new_idx[j] and new_idx[j] < len({OLD}) and {OLD}[new_idx[j]] == new_hierarchy[j] "
+            "for j in range(len(new_hierarchy)))",
+            "sorted_nondecr(new_idx)",
+            f"all(any({OLD}[i] == to_drop[d] for i in range(len({OLD}))) and "
+            "not any(new_hierarchy[j] == to_drop[d] for j in range(len(new_hierarchy))) "
+            "for d in range(len(to_drop)))",
+            f"all(implies({OLD}[i] not in new_hierarchy, {OLD}[i] in to_drop) for i in range(len({OLD})))",
+        ],
+    },
+    loops={
+        0: ["all(implies(not any(old_tree.hierarchy[i] == new_hierarchy[j] for i in range(len(old_tree.hierarchy))), "
+            "len(bad_levels) > 0) for j in range(_i))"],
+        1: [f"all(any({OLD}[i] == to_drop[d] for i in range(len({OLD}))) and "
+            "not any(new_hierarchy[j] == to_drop[d] for j in range(len(new_hierarchy))) "
+            "for d in range(len(to_drop)))",
+            f"all(implies({OLD}[i] not in new_hierarchy, {OLD}[i] in to_drop) for i in range(_i))",
+            # the level appended last is the last absent level visited (ground witness for the clause above)
+            "implies(_i >= 1 and _it[_i - 1] not in new_hierarchy, "
+            "len(to_drop) >= 1 and to_drop[len(to_drop) - 1] == _it[_i - 1])"],
+    },
+)
